@@ -166,6 +166,8 @@ def lattice():
             out.append({"project": proj, "cli": fl, "envvar": other, "default_flags": other.split(",")})
             out.append({"project": proj, "default_flags": a, "default_flags_tui": other.split(",")})
             out.append({"project": proj, "default_flags": other.split(","), "default_flags_tui": a, "tty": True})
+            out.append({"project": proj, "default_flags_tui": a, "tty": True})
+            out.append({"project": proj, "default_flags_tui": a})
             out.append({"project": proj, "default_flags": a, "tty": True, "answers": {"fix": True}})
             out.append({"project": proj, "shortcut": "sc", "shortcuts": {"sc": a}, "envvar": other})
             out.append({"project": proj, "envvar": "report," + fl, "default_flags": ["short-report"]})
@@ -224,7 +226,8 @@ def random_config(rng, project):
             cfg["default_flags_tui"] = other
     elif src == "tui":
         cfg["default_flags_tui"] = fl
-        cfg["default_flags"] = other
+        if rng.random() < 0.5:
+            cfg["default_flags"] = other  # (else: the project configures the terminal default only)
         cfg["tty"] = True
     else:
         cfg["shortcut"] = "sc"
